@@ -13,11 +13,11 @@ CLAIMS = {
     'C01': dict(text='Static analysis: units/levels abstract interpretation of all intersects_bounds forms down to the numba kernels (axis, level, base, parity, '
                      'fencepost, in-loop confinement), CFG dominance of box re-orientation, exhaustive weak-ordering evaluation of the comparison-only fragments '
                      '(closed box membership, interval overlap, bbox reject soundness, projection shortcut), form agreement scalar/array/inds, inert rows => False, '
-                     'containment fallback on every non-accepting exit. Orientation sign table and box-edge coverage (finite tables), IEEE (no-fastmath) compilation of the kernels. Edge tests collected by interpreting the call chain down to segments_intersect; rejects inside it sound for the arguments passed at these call sites; scalar point compares in double precision.',
+                     'containment fallback on every non-accepting exit. Orientation sign table and box-edge coverage (finite tables), IEEE (no-fastmath) compilation of the kernels. Edge tests collected by interpreting the call chain down to segments_intersect; rejects inside it sound for the arguments passed at these call sites; scalar point compares in double precision. Offsets of masked rows never dereferenced without the mask; scratch buffers allocated per element iteration.',
                 undecided='correctness of the orientation/winding arithmetic, the geometric lemma behind the projection shortcut, exact-arithmetic behaviour.',
                 technique='abstract interpretation (units/levels type system) + CFG dominance + exhaustive order-type evaluation', ref='§5 C01'),
     'C02': dict(text='Static analysis: units typing of the point-vs-shape kernels and wrappers, scalar/array/inds agreement, exhaustive evaluation of the half-open edge rule and '
-                     'the closed segment bbox over all weak orderings, validity-mask sanitisation of fixed-width values. Paired (same-member) multipoint membership; scalar point equality on coordinate values.',
+                     'the closed segment bbox over all weak orderings, validity-mask sanitisation of fixed-width values. Paired (same-member) multipoint membership; scalar point equality on coordinate values. Coordinate buffers are read row-major (x,y interleaved); wrappers pass kernel arguments in the kernel\'s own order; scalar dtype derived from the data.',
                 undecided='winding-number arithmetic, behaviour exactly on ring boundaries.',
                 technique='abstract interpretation + exhaustive order-type evaluation + taint (validity mask)', ref='§5 C02'),
     'C03': dict(text='Static analysis of HilbertRtree: exhaustive weak-ordering (and NaN) evaluation of node pruning (soundness) and leaf classification (equivalence) for '
@@ -26,7 +26,7 @@ CLAIMS = {
                 undecided='disjointness of traversal ranges as an inductive invariant, independence from p as a whole, exactly-once as a whole.',
                 technique='small-scope evaluation of the query / build kernels by abstract interpretation over small concrete domains + exhaustive order-type evaluation + CFG pairing', ref='§5 C03'),
     'C04': dict(text='Static analysis of the cx indexers: axes/defaults/swap/layout of _get_bounds (order-type evaluation), covered U tested rows with mask pairing and order '
-                     'restoration, active geometry + parent handed to the indexer, positional selection, who may write _sindex. Necessary obligations of C03 (the index answers exactly) are re-reported here. Exact test on every path of the resolved __getitem__ (overrides and super() followed); boxes fed to the index (C13) re-reported.',
+                     'restoration, active geometry + parent handed to the indexer, positional selection, who may write _sindex. Necessary obligations of C03 (the index answers exactly) are re-reported here. Exact test on every path of the resolved __getitem__ (overrides and super() followed); boxes fed to the index (C13) re-reported. build_sindex always builds (no stale index returned).',
                 undecided='the exact test itself (C01), pandas indexing semantics.',
                 technique='order-type evaluation + def-use pairing + who-may-write', ref='§5 C04'),
     'C05': dict(text='Static analysis of sjoin: emitted pairs flow only through the exact-predicate mask of the same candidates, same-row rule, outcome-level join-kind '
@@ -48,16 +48,16 @@ CLAIMS = {
                 technique='def-use provenance + CFG must-pass-through', ref='§5 C09'),
     'C10': dict(text='Static analysis of pack_partitions_to_parquet and its closures: create/cleanup pairing of the placeholder and temp directory families on every normal path, '
                      'ordering (overwrite before makedirs, remove placeholder before write, read before delete, metadata on every path, fresh re-read returned), naming templates of '
-                     'sub-parts/placeholders/final files and the compaction move, validation of tempdir_format before use. Renumbering moves form a serial ascending chain; no file addressed through its pre-rename name afterwards; empty-partition sentinel agreement between producer and filter; temp template only defaulted; removal confined to created directories; no per-call-fresh value in a default argument. Reader-side part ordering (C11.d/C12.c) re-reported: the returned frame is a re-read. Bulk renumbering must not delete targets; reader file provenance (listing, not recorded names).',
+                     'sub-parts/placeholders/final files and the compaction move, validation of tempdir_format before use. Renumbering moves form a serial ascending chain; no file addressed through its pre-rename name afterwards; empty-partition sentinel agreement between producer and filter; temp template only defaulted; removal confined to created directories; no per-call-fresh value in a default argument. Reader-side part ordering (C11.d/C12.c) re-reported: the returned frame is a re-read. Bulk renumbering must not delete targets; reader file provenance (listing, not recorded names). A writer submitted to an executor counts as the write; both sides of the listing gate order-free; removal targets never above the created directory.',
                 undecided='file contents, Dask quantiles/digitize, real filesystem effects.',
                 technique='CFG must-pass-through/ordering + path-template comparison', ref='§5 C10'),
     'C11': dict(text='Static analysis of the type registry and parquet hooks: closure of Dtype<->Array<->scalar<->Dask example<->nesting level for all seven kinds, arrow hooks, '
-                     'constructor acceptance of (Chunked)Array, index columns prepended to a projection, natural sort of pieces. Dtype parsing answers per class (no table inherited by subclasses); GeoSeries keeps the labels of Series-like input; one piece per file; dataset files come from the directory listing. The pandas writer receives df/index/compression as given; projections keep the request order; dask token of a geometry array exists, includes the dtype and covers validity and offset (S10, S14); task names contain whole arguments; listings are not memoised; the glob filter only excludes metadata names.',
+                     'constructor acceptance of (Chunked)Array, index columns prepended to a projection, natural sort of pieces. Dtype parsing answers per class (no table inherited by subclasses); GeoSeries keeps the labels of Series-like input; one piece per file; dataset files come from the directory listing. The pandas writer receives df/index/compression as given; projections keep the request order; dask token of a geometry array exists, includes the dtype and covers validity and offset (S10, S14); task names contain whole arguments; listings are not memoised; the glob filter only excludes metadata names. Column projections pass through to every piece; glob patterns expanded per entry.',
                 undecided='pyarrow/pandas serialisation itself (almost all value-level content of the property).',
                 technique='registry closure (table rule) + def-use', ref='§5 C11'),
     'C12': dict(text='Static analysis of partition-bounds metadata: writer/reader key agreement, per-partition values from that partition\'s total_bounds in partition order, '
                      'string->int conversion before the ordering sort, natural sort of pieces, closed-overlap filter with re-oriented box (exhaustive order-type evaluation), one mask '
-                     'for partitions/divisions/all bounds tables, bounds of the active geometry used for filtering. No memoisation of storage reads; the geometry name is read after set_geometry (CFG order); selection-key guard of cache propagation. Concrete small-scope fallback for computed overlap masks; NaN-aware merging of extents; class-level containers never filled through instances; box coordinates never tested for truth; array extents computed from the own window of the array.',
+                     'for partitions/divisions/all bounds tables, bounds of the active geometry used for filtering. No memoisation of storage reads; the geometry name is read after set_geometry (CFG order); selection-key guard of cache propagation. Concrete small-scope fallback for computed overlap masks; NaN-aware merging of extents; class-level containers never filled through instances; box coordinates never tested for truth; array extents computed from the own window of the array. Filtering only when bounds= is given; overlap masks computed in helpers followed; every per-partition callable returns exactly one row on every return.',
                 undecided='that the recorded numbers equal the data extents (C13, pyarrow).',
                 technique='key/table agreement + CFG ordering + order-type evaluation + def-use pairing', ref='§5 C12'),
     'C13': dict(text='Static analysis of bounds kernels and accessors: parity->axis, min/max roles, isfinite guards, sentinel->NaN, result layout, values/offsets pairing (absolute vs '
@@ -65,7 +65,7 @@ CLAIMS = {
                 undecided='numerical equality.',
                 technique='abstract interpretation (units/roles) + small-scope order-type evaluation + CFG must-guard + taint', ref='§5 C13'),
     'C14': dict(text='Static analysis of measures: dimension of length (sqrt(dX^2+dY^2)) and area (X*dY, halved), isfinite guards, confinement to the ring, map depth = nesting level with '
-                     'offsets composed per level, missing guard and NaN prefill, per-kind table, scalar=array kernel with the element\'s innermost offsets, boundary re-wrap with mask. Decision table (store guard x prefill) for missing / part-less / present elements; repository-defined decorator wrappers analysed as part of the method; no fastmath.',
+                     'offsets composed per level, missing guard and NaN prefill, per-kind table, scalar=array kernel with the element\'s innermost offsets, boundary re-wrap with mask. Decision table (store guard x prefill) for missing / part-less / present elements; repository-defined decorator wrappers analysed as part of the method; no fastmath. Arrow data of geometry arrays is never built with from_pandas=True (S16: it would turn NaN vertices into null slots holding 0.0).',
                 undecided='that the shoelace/wrap-around formula is right, degenerate-ring threshold, floating-point accuracy.',
                 technique='abstract interpretation (units/dimensions/levels) + table rule', ref='§5 C14'),
     'C15': dict(text='Static analysis of oriented(): the mutating kernel receives a fresh copy (effects), the result is rebuilt from the same offsets per level with the validity mask '
@@ -73,7 +73,7 @@ CLAIMS = {
                 undecided='the sign convention, idempotence, effect on areas and intersections.',
                 technique='effect analysis + abstract interpretation (levels) + small-scope evaluation of the orientation kernel + finite sign table', ref='§5 C15'),
     'C16': dict(text='Static analysis of derived arrays: every positional raw-buffer read applies the array offset/length, absolute/re-based pairing at kernel call sites, _sindex never '
-                     'carried over, derivations construct the receiver\'s own class. Validity bitmap read for len(array) bits from bit array.offset (loop and vectorised idioms). Small-scope equivalence of the validity-bitmap read (offsets 0..20 x lengths 0..12 x 3 patterns); slice shortcuts of take/mask taken only for consecutive positions (all index vectors of length <= 4); scalars built with the array dtype. Small-scope equivalence of __getitem__ for integer vectors, boolean masks and slices (take inlined); derived arrays carry no state of their source.',
+                     'carried over, derivations construct the receiver\'s own class. Validity bitmap read for len(array) bits from bit array.offset (loop and vectorised idioms). Small-scope equivalence of the validity-bitmap read (offsets 0..20 x lengths 0..12 x 3 patterns); slice shortcuts of take/mask taken only for consecutive positions (all index vectors of length <= 4); scalars built with the array dtype. Small-scope equivalence of __getitem__ for integer vectors, boolean masks and slices (take inlined); derived arrays carry no state of their source. Re-wrapped child arrays start at offset zero; offsets of masked rows are never used as windows.',
                 undecided='pandas-level semantics and error types, equality of derived quantities.',
                 technique='who-may-read raw buffers + abstract interpretation (base tags) + small-scope evaluation of index/bit arithmetic + who-may-write', ref='§5 C16'),
     'C17': dict(text='Static analysis, union of the inert-row rules: fixed-width placeholder values sanitised by the validity mask before any result, NaN rows never covered / never '
@@ -81,16 +81,16 @@ CLAIMS = {
                 undecided='the metamorphic relation as a whole (all results for other rows unchanged).',
                 technique='taint (validity mask) + NaN order-type evaluation + CFG must-guard', ref='§5 C17'),
     'C18': dict(text='Static effect analysis: prange bodies store only A[i] and call only store-free callees, parallel=True kernels use per-iteration result slots, Dask task functions '
-                     'write no captured/global state and their write targets are functions of the task identity, in-place kernels receive only fresh copies. Block boundaries derived from the thread count are provably even before they cut an interleaved buffer; decorator wrappers that store into the receiver; cx indexer works on one snapshot of the index. Renumbering moves are not turned into tasks; pool tasks fill no shared list in completion order; values evaluated once (defaults, module constants) hold nothing that must be fresh per call.',
+                     'write no captured/global state and their write targets are functions of the task identity, in-place kernels receive only fresh copies. Block boundaries derived from the thread count are provably even before they cut an interleaved buffer; decorator wrappers that store into the receiver; cx indexer works on one snapshot of the index. Renumbering moves are not turned into tasks; pool tasks fill no shared list in completion order; values evaluated once (defaults, module constants) hold nothing that must be fresh per call. No loop-carried scalar in a prange body; the shuffle method does not depend on ambient Dask configuration.',
                 undecided='check-then-build caches under concurrent first access, numba runtime, Dask scheduler.',
                 technique='effect analysis (stores closed over the call graph) + provenance of mutated buffers', ref='§5 C18'),
     'C19': dict(text='Static analysis of the retried closures: no swallowed errors on the call tree (enumerated metadata-optional reads excepted), listing-equality gate dominates the '
                      'read of a sub-part directory and raises inside the retried function, removal re-checks existence and raises, retried writers open truncating, every filesystem '
-                     'operation goes through the caller\'s filesystem object. Retried functions mutate no state that outlives the attempt (captured or passed in). Attempt-independent write paths; per-attempt collector lists consumed one entry at a time. Both sides of the listing gate are order-free in the same way.',
+                     'operation goes through the caller\'s filesystem object. Retried functions mutate no state that outlives the attempt (captured or passed in). Attempt-independent write paths; per-attempt collector lists consumed one entry at a time. Both sides of the listing gate are order-free in the same way. Emptiness of a partition and the skipping of a move are decided from the expected sub-part list / the file itself, never from a directory listing; futures are asked for their result; helpers nested in retried functions are analysed as part of them.',
                 undecided='idempotence under real partial failures, the fault enumeration itself.',
                 technique='CFG dominance + handler discipline + who-may-call', ref='§5 C19'),
     'C20': dict(text='Static analysis of the active geometry: _geometry in _metadata, every frame-level spatial operation obtains the geometry through .geometry, constructor inheritance and '
-                     'set_geometry validation, Dask set_geometry mapped and geometry= reaching partitions, re-derivation hooks (__finalize__ for combined inputs, meta_nonempty, sjoin wrap). Inputs of the geometry agreement are not filtered by row count; bounds of all geometry columns stay aligned with the partitions (from C12). set_geometry returns self only when inplace; Dask type hooks answer from their argument only; dask token includes the active geometry (S10).',
+                     'set_geometry validation, Dask set_geometry mapped and geometry= reaching partitions, re-derivation hooks (__finalize__ for combined inputs, meta_nonempty, sjoin wrap). Inputs of the geometry agreement are not filtered by row count; bounds of all geometry columns stay aligned with the partitions (from C12). set_geometry returns self only when inplace; Dask type hooks answer from their argument only; dask token includes the active geometry (S10). __finalize__ does not return early on a pre-set geometry name before the inputs of a combination are consulted.',
                 undecided='which pandas code path a given operation takes (S5 is a model of pandas), result types beyond the hooks.',
                 technique='def-use provenance (who-reads) + table rule', ref='§5 C20'),
 }
